@@ -247,7 +247,7 @@ Qed.
 
 Lemma step_coh c s o : coh c s -> coh c (fst (step fixed c s o)).
 Proof.
-  intros [Hc Hm]. destruct o as [i k|i k dt|cas|i cas vals|k|i k|i k dt|i p v|i p v]; simpl.
+  intros [Hc Hm]. destruct o as [i k|i k dt|cas|i cas vals|k|i k|i k dt|i p v|i p v|i src|i src]; simpl.
   - destruct (nth_error (sixs s) i) as [[d|phs rows]|]; simpl.
     + destruct (chem_lookup_spec (tb c) (scc s) k Hc) as [C1 _].
       destruct (chem_lookup (tb c) (scc s) k) as [cc' r]. simpl in *. split; auto.
@@ -293,6 +293,10 @@ Proof.
     destruct (add_phase_row (nchem c) phs rows p) as [[phs' rows'] r]. simpl. split; auto.
   - destruct (nth_error (sixs s) i) as [[d|phs rows]|]; simpl; try (split; auto; fail).
     destruct (add_phase_row (nchem c) phs (map (fun x => vzero (length x)) rows) p) as [[phs' rows'] r]. simpl. split; auto.
+  - destruct (nth_error (sixs s) i) as [[d|phs rows]|]; simpl; try (split; auto; fail).
+    destruct (mix_mat (nchem c) phs rows src) as [phs' rows']. simpl. split; auto.
+  - destruct (nth_error (sixs s) i) as [[d|phs rows]|]; simpl; try (split; auto; fail).
+    destruct (copy_mat (nchem c) phs rows src) as [phs' rows']. simpl. split; auto.
 Qed.
 
 Lemma run_coh c ops : forall s, coh c s -> coh c (fst (run fixed c s ops)).
@@ -1054,4 +1058,27 @@ Proof.
   simpl. destruct (nth_error (sixs s) i) as [[d|phs rows]|]; simpl; auto.
   destruct (add_phase_row (nchem c) phs rows p) as [[phs1 rows1] r1].
   destruct (add_phase_row (nchem c) phs (map (fun x => vzero (length x)) rows) p) as [[phs2 rows2] r2]. simpl. auto.
+Qed.
+
+Lemma expand_mat_keeps_caches vr c s i src :
+  scc (fst (step vr c s (OMixMat i src))) = scc s /\ smc (fst (step vr c s (OMixMat i src))) = smc s /\
+  scc (fst (step vr c s (OCopyMat i src))) = scc s /\ smc (fst (step vr c s (OCopyMat i src))) = smc s.
+Proof.
+  simpl. destruct (nth_error (sixs s) i) as [[d|phs rows]|]; simpl; auto.
+  destruct (mix_mat (nchem c) phs rows src) as [phs1 rows1]. destruct (copy_mat (nchem c) phs rows src) as [phs2 rows2]. simpl. auto.
+Qed.
+
+(* rows added together are separate rows: a write to one row of any row list leaves the others alone (rows are
+   values in a list, never shared), in particular after a joint expansion *)
+Lemma insert_phases_lengths ps : forall phs rows z, length phs = length rows ->
+  length (fst (insert_phases ps phs rows z)) = length (snd (insert_phases ps phs rows z)).
+Proof.
+  assert (I : forall p phs rows z, length phs = length rows ->
+            length (fst (insert_phase p phs rows z)) = length (snd (insert_phase p phs rows z))).
+  { intros p phs; induction phs as [|q phs IH]; intros [|r rows] z L; simpl in *; try discriminate; auto.
+    destruct (String.ltb p q); simpl; [lia|].
+    specialize (IH rows z ltac:(lia)). destruct (insert_phase p phs rows z). simpl in *. lia. }
+  induction ps as [|p r IH]; intros phs rows z L; simpl; auto.
+  destruct (mem_str p phs); auto.
+  specialize (I p phs rows z L). destruct (insert_phase p phs rows z) as [a b]. simpl in I. apply IH. exact I.
 Qed.
